@@ -56,6 +56,7 @@ def variants_for(pid, i, model, tier):
         vs.append(dict(base, base_off_ms=-3000, tag="origin 3 s before the real clock"))
         vs.append(dict(base, thread=True, decoys=3, tag="thread+decoys"))
         vs.append(dict(base, subscriber=True, tag="tracing subscriber installed"))
+        vs.append(dict(base, twin=True, tag="a second live agent of the process is given the same history call by call (same transaction ids, same instants)"))
         if tier == "thorough":
             vs.append(dict(base, base_ms=123456789, decoys=5, thread=True, tag="all"))
     return vs
@@ -444,7 +445,7 @@ def b2(pid, tier, seed, wd, rep):
             # the same histories again in other agent instances (another thread, decoy agents, later in the process):
             # up to the first poll that resolves a tie differently (HashMap order, the only legitimate nondeterminism)
             # every answer and the visible state must be the same
-            again = [dict(sc, id=sc["id"] + "/again", thread=True, decoys=2) for sc in scripts]
+            again = [dict(sc, id=sc["id"] + "/again", thread=True, decoys=2, twin=(k % 2 == 0)) for k, sc in enumerate(scripts)]
             out2 = run_scripts(again, wd, "b2again" + transport)
             for sc in scripts:
                 e1, e2 = out[sc["id"]], out2[sc["id"] + "/again"]
